@@ -460,13 +460,20 @@ def emit_def(sc, k):
         out.append("impl Bchk for %s { #[allow(unused_variables)] fn bchk(&self, lo: usize, hi: usize) -> bool { match self { %s } } }" % (st_name, ", ".join(bors)))
     return "\n".join(out)
 
-def emit_gen_rs(schemas):
+def emit_gen_rs(schemas, exclude=(), spans=None):
+    """exclude: schema ids left out (their cases are answered `?no-type`); spans: list receiving (first line, last line, sid)"""
     out = ["// generated by checks/derivegen.py — do not edit", "#![allow(dead_code, unused_parens, non_camel_case_types, unused_mut)]",
            "use crate::canon::*;", "use crate::support::*;", "use minicbor::{Encode, Decode, CborLen};", ""]
     table = []
+    line = len(out) + 1
     for sc in schemas:
+        if sc.sid in exclude: continue
         for k in range(len(sc.defs)):
-            out.append(emit_def(sc, k))
+            txt = emit_def(sc, k)
+            n = txt.count("\n") + 1
+            if spans is not None: spans.append((line, line + n - 1, sc.sid))
+            line += n
+            out.append(txt)
             table.append('("%s:%d", ops::<%s> as fn() -> Ops)' % (sc.sid, k, def_rust_name(sc, k, static=True)))
     out.append("pub static TABLE: &[(&str, fn() -> Ops)] = &[\n%s\n];" % ",\n".join(table))
     return "\n".join(out) + "\n"
@@ -913,8 +920,24 @@ def _hash_tree(h, path):
                 p = os.path.join(d, f)
                 h.update(p.encode()); h.update(open(p, "rb").read())
 
+def _build_derive(crate, env, target, src):
+    gp = os.path.join(crate, "src", "gen.rs")
+    if not os.path.exists(gp) or open(gp).read() != src: open(gp, "w").write(src)
+    try:
+        p = subprocess.run("timeout 1700 cargo build --offline --message-format=short 2>&1 | grep -v '^warning\\|^$' | tail -4000", shell=True, cwd=crate, env=env,
+                           stdout=subprocess.PIPE, stderr=subprocess.STDOUT, timeout=1800)
+        out = p.stdout.decode(errors="replace")
+    except subprocess.TimeoutExpired:
+        return False, "cargo build of harness-derive timed out"
+    built = os.path.join(target, "debug", "harness-derive")
+    return ("Finished" in out and os.path.exists(built)), out
+
 def prepare(tier, rng, root, cache):
-    """generate harness-derive/src/gen.rs from the seed and build it against /repo (cached by content hash)"""
+    """generate harness-derive/src/gen.rs from the seed and build it against /repo (cached by content hash).
+    If the generated crate does not compile (every generated definition is one the documented grammar accepts and the unchanged
+    macros compile), the schemas the compiler errors point into are left out and the rest is built: their cases are then
+    answered `?no-type`, which the plugins' oracle reports as a violation with that schema as the failing input, and the
+    remaining schemas still run (a same-typed instance of the miscompiled shape usually shows the wrong behaviour directly)."""
     import re
     w = get_world(tier, rng)
     crate = os.path.join(root, "harness-derive")
@@ -929,8 +952,6 @@ def prepare(tier, rng, root, cache):
     os.makedirs(bindir, exist_ok=True)
     binary = os.path.join(bindir, "harness-derive-" + h.hexdigest()[:16])
     if os.path.exists(binary): return True, "cached", {"derive": binary}
-    gp = os.path.join(crate, "src", "gen.rs")
-    if not os.path.exists(gp) or open(gp).read() != src: open(gp, "w").write(src)
     shutil.copyfile(os.path.join(os.path.dirname(dep), "Cargo.lock"), os.path.join(crate, "Cargo.lock"))
     target = os.path.join(cache, "derive-target")
     env = dict(os.environ, CARGO_NET_OFFLINE="true", CARGO_TARGET_DIR=target)
@@ -944,19 +965,39 @@ def prepare(tier, rng, root, cache):
     os.makedirs(target, exist_ok=True)
     open(stamp, "w").write(hd.hexdigest())
     t0 = time.time()
-    try:
-        p = subprocess.run("timeout 1700 cargo build --offline 2>&1 | grep -v '^warning\\|^ *|\\|^ *=\\|^ *-->\\|^$\\|^ *[0-9]* *|' | tail -40", shell=True, cwd=crate, env=env,
-                           stdout=subprocess.PIPE, stderr=subprocess.STDOUT, timeout=1800)
-        out = p.stdout.decode(errors="replace")
-    except subprocess.TimeoutExpired:
-        return False, "cargo build of harness-derive timed out", {}
+    ok, out = _build_derive(crate, env, target, src)
+    note = ""
+    if not ok:
+        spans = []
+        emit_gen_rs(w.all, spans=spans)
+        bad = set()
+        for ln in re.findall(r"^src/gen\.rs:(\d+):\d+: error", out, re.M):
+            ln = int(ln)
+            for a, b, sid in spans:
+                if a <= ln <= b: bad.add(sid); break
+        if not bad or len(bad) > len(w.all) // 2:
+            return False, "harness-derive does not build: " + out[-1500:], {}
+        src2 = emit_gen_rs(w.all, exclude=bad)
+        ok, out2 = _build_derive(crate, env, target, src2)
+        if not ok: return False, "harness-derive does not build (even without the %d schemas the first errors point into): %s" % (len(bad), out2[-1500:]), {}
+        first = [l for l in out.splitlines() if ": error" in l][:3]
+        note = "; %d schemas left out because they do not compile with the macros (%s) e.g. %s" % (len(bad), ",".join(sorted(bad)[:8]), " | ".join(first)[:400])
     built = os.path.join(target, "debug", "harness-derive")
-    if "Finished" not in out or not os.path.exists(built): return False, "harness-derive does not build: " + out[-1500:], {}
-    shutil.copyfile(built, binary); os.chmod(binary, 0o755)
+    if ok and not note:
+        shutil.copyfile(built, binary); os.chmod(binary, 0o755)
+    else:
+        binary = binary + "-partial"
+        shutil.copyfile(built, binary); os.chmod(binary, 0o755)
     for old in sorted(os.listdir(bindir), key=lambda f: os.path.getmtime(os.path.join(bindir, f)))[:-6]:
         try: os.remove(os.path.join(bindir, old))
         except OSError: pass
-    return True, "built %d types in %.0fs" % (sum(len(s.defs) for s in w.all), time.time() - t0), {"derive": binary}
+    return True, "built %d types in %.0fs%s" % (sum(len(s.defs) for s in w.all), time.time() - t0, note), {"derive": binary}
+
+def oracle(line, impl):
+    """a generated definition (accepted by the documented grammar; compiled by the unchanged macros) that the macros no longer compile"""
+    if impl.startswith("?no-type"):
+        return "this type definition no longer compiles with the derive macros (schema %s)" % " ".join(line.split(" ")[1:3])[:300]
+    return None
 
 def route(line):
     return "derive" if line.split(" ", 1)[0] in ("DENC", "DLEN", "DDEC", "DRT", "DCOMPAT", "DMETA") else "main"
